@@ -124,7 +124,7 @@ func swoTriple(less func(i, j int) bool) string {
 
 func runC08(seed uint64, n int, tier string, outDir string) []*Stats {
 	r := NewRng(seed)
-	cf := NewCoqFile("From V Require Import Common.Base C08.SortPerm C08.Comparators C08.Dfs C08.Serializer C08.Harness.")
+	cf := NewCoqFile("From V Require Import Common.Base C08.SortPerm C08.Comparators C08.Dfs C08.Serializer C08.Scanner C08.Harness.")
 	st := NewStats("c08", seed)
 
 	// ---------------- numeric comparators ----------------
@@ -338,6 +338,15 @@ func runC08(seed uint64, n int, tier string, outDir string) []*Stats {
 		items = append(items, serializerCase(r, st))
 	}
 	cf.AddCases("ser_cases", "Z * list (Z * Z)", "check_ser", items)
+
+	// ---------------- the scan phase under reordered parse results ----------------
+	items = nil
+	for i := 0; i < ns/2; i++ {
+		if it, ok := scanCase(r, st); ok {
+			items = append(items, it)
+		}
+	}
+	cf.AddCases("scan_cases", "list (Z * list Z) * list Z * list Z * list (list Z) * list Z", "check_scan", items)
 
 	if err := os.WriteFile(outDir+"/c08_cases.v", []byte(cf.String()), 0o644); err != nil {
 		panic(err)
